@@ -523,7 +523,7 @@ spifopt_parse(int argc, char *argv[])
     spif_int32_t i, j;
     spif_charptr_t opt;
 
-    REQUIRE(argc > 1);
+    REQUIRE(argc > 0);
     REQUIRE(argv != NULL);
 
     /* Process each command line arg one-by-one. */
